@@ -461,7 +461,7 @@ func TestC18ConnectSetup(t *testing.T) {
 				}
 			}
 			if !wantFail {
-				if failures > 0 && h.Current() != nil && h.Current().Accepted() {
+				if cur := h.Current(); failures > 0 && cur != nil && cur.Accepted() {
 					failedThenOK++
 				}
 				return
